@@ -755,12 +755,17 @@ func fontWeight(computer *ComputedStyle, _ pr.KnownProp, _value pr.CssProperty) 
 		out = 400
 	case "bold":
 		out = 700
-	case "bolder":
-		parentValue := computer.parentStyle.GetFontWeight().Int
-		out = fontWeightRelative.bolder[parentValue]
-	case "lighter":
-		parentValue := computer.parentStyle.GetFontWeight().Int
-		out = fontWeightRelative.lighter[parentValue]
+	case "bolder", "lighter":
+		// the root element inherits the initial value
+		parentValue := pr.InitialValues.GetFontWeight().Int
+		if computer.parentStyle != nil {
+			parentValue = computer.parentStyle.GetFontWeight().Int
+		}
+		if value.String == "bolder" {
+			out = fontWeightRelative.bolder[parentValue]
+		} else {
+			out = fontWeightRelative.lighter[parentValue]
+		}
 	default:
 		out = value.Int
 	}
